@@ -7,7 +7,7 @@ NAMES = [('p', 1), ('p', 2), ('q', 1), ('r', 1), ('s', 0)]
 API = ['atom', 'variable', 'query', 'unify', 'makelist', 'functor', 'match_dynamic', 'ATOM_NIL', 'True', '__builtins__', 'listpair']
 
 
-def script(rnd, tag):
+def script(rnd, tag, refs=True):
     """a script that defines a random subset of NAMES; answers identify script and clause"""
     clauses = []
     for name, ar in NAMES:
@@ -20,7 +20,7 @@ def script(rnd, tag):
             r = rnd.random()
             if r < 0.2:
                 body = 'cut'                       # each definition keeps its own cuts
-            elif r < 0.35 and ar and [n_ for n_ in NAMES if n_[1] == 1 and n_[0] > name]:
+            elif refs and r < 0.35 and ar and [n_ for n_ in NAMES if n_[1] == 1 and n_[0] > name]:
                 # only "later" names are referenced, so that no history builds a recursion
                 other = rnd.choice([n_ for n_ in NAMES if n_[1] == 1 and n_[0] > name])
                 head = [('V', 'X')] + [('A', 'x')] * (ar - 1)
@@ -45,28 +45,35 @@ def queries():
 
 def history(rnd, rep):
     ops = []
+    # histories with a load *during* a suspended query use scripts without cross-references: the
+    # model runs such a query to completion before the load, which is only the same thing when no
+    # goal of the running query is called after the load
+    inflight = rnd.random() < 0.35
+    refs = not inflight
     for step in range(rnd.randint(2, 6)):
         r = rnd.random()
         tag = 's%d' % step
         if r < 0.45:
-            ops.append(('load', rnd.choice(['overwrite', 'combine', 'combine']), script(rnd, tag)))
+            ops.append(('load', rnd.choice(['overwrite', 'combine', 'combine']), script(rnd, tag, refs)))
         elif r < 0.55:
-            ops.append(('loadfail', script(rnd, tag)))
+            ops.append(('loadfail', script(rnd, tag, refs)))
         elif r < 0.75:
             name, ar = rnd.choice(NAMES)
             rows = [(0, [[Sym('a'), '%spy%d' % (tag, k)]] + [[Sym('a'), 'x']] * (ar - 1) if ar else []) for k in range(rnd.randint(1, 2))]
             style = rnd.choice(['explicit', 'inferred', 'variadic'])
             ops.append(('regpy', name, None if style == 'variadic' else ar, rows if ar else [(0, [])], None, style, rnd.random() < 0.5))
-        elif r < 0.9:
+        elif r < (0.8 if inflight else 0.9):
             name, ar = rnd.choice(NAMES)
             ops.append(('assert', name, rnd.choice(['a', 'z']), [[Sym('a'), tag + 'dyn']] + [[Sym('a'), 'x']] * (ar - 1) if ar else []))
-        elif r < 0.93:
+        elif r < (0.83 if inflight else 0.93):
             ops.append(('clear',))
+        elif r < 0.97 and not inflight:
+            pass
         elif r < 0.97:
             # a script is loaded while a query on one of its predicates is suspended
             name, ar = rnd.choice([n_ for n_ in NAMES if n_[1] >= 1])
             ops.append(('query_load', name, [[Sym('v'), i] for i in range(ar)], rnd.randint(1, 2), rnd.choice(['combine', 'combine', 'overwrite']),
-                        script(rnd, tag)))
+                        script(rnd, tag, refs)))
         else:
             # the engine's own API names are never callable as predicates
             api = rnd.choice(API)
